@@ -83,3 +83,128 @@ package xmpp
 //@ func xmpp.NewComponentTransport(config) (t, err)
 //@   ensures [C20.component.ws]  isWs(config.Address) ==> err != nil && t == nil
 //@   ensures [C20.component.tcp] !isWs(config.Address) ==> err == nil && typeof(t) == *XMPPTransport && t.(*XMPPTransport) != nil && epForms(config.Address, 5222, t.(*XMPPTransport).Config.Address)
+
+// ---------------------------------------------------------------------------
+// C06: routing
+//
+// accepts(m, p) is the (pure, deterministic) verdict of matcher m on packet p; the Matcher interface contract says
+// that Match returns it and touches nothing. The three built-in matchers are verified against their documented
+// behaviour (the right-hand sides of [C06.matcher.*]), which is what accepts means for them.
+//@ spec accepts(m Iface, p Iface) Bool
+//@ spec nsOf(x Iface) Str
+//@ event HandlePacket(h Iface, s Iface, p Iface)
+//@ event Send(s Iface, p Iface)
+//@ event SendRaw(s Iface, stz Str)
+//@ event SendAttrs(typ Str, id Str, from Str, to Str, reason Str)
+//
+//@ func (xmpp.Matcher).Match(m, p, match) (ok)
+//@   ensures ok == accepts(m, p)
+//
+//@ func (xmpp.Handler).HandlePacket(h, s, p)
+//@   emit HandlePacket(h, s, p)
+//@   havoc *
+//
+//@ func (stanza.IQPayload).Namespace(x) (ns)
+//@   ensures ns == nsOf(x)
+//
+//@ pred pktName(p) := ite(typeof(p) == stanza.Message, "message", ite(typeof(p) == *stanza.IQ, "iq", ite(typeof(p) == stanza.Presence, "presence", "")))
+//@ pred isStanza(p) := typeof(p) == stanza.Message || typeof(p) == *stanza.IQ || typeof(p) == stanza.Presence
+//@ pred stanzaType(p) := ite(typeof(p) == *stanza.IQ, p.(*stanza.IQ).Type, ite(typeof(p) == stanza.Presence, p.(stanza.Presence).Type, ite(p.(stanza.Message).Type == "", "normal", p.(stanza.Message).Type)))
+//@ pred inList(arr, v) := exists(k, 0, len(arr), arr[k] == v)
+//
+//@ func xmpp.matchInArray(arr, value) (found)
+//@   ensures [C06.inarray.found] found ==> inList(arr, value)
+//@   ensures [C06.inarray.none]  !found ==> forall(k, 0, len(arr), arr[k] != value)
+//@   loop 1:
+//@     invariant 0 <= $i && $i <= len(arr) && forall(k, 0, $i, arr[k] != value)
+//@     decreases len(arr) - $i
+//
+//@ func (xmpp.nameMatcher).Match(n, p, match) (ok)
+//@   ensures [C06.matcher.name] ok == (n == pktName(p))
+//
+//@ func (xmpp.nsTypeMatcher).Match(m, p, match) (ok)
+//@   requires typeof(p) == *stanza.IQ ==> p.(*stanza.IQ) != nil
+//@   ensures [C06.matcher.type] ok == (isStanza(p) && inList(m, stanzaType(p)))
+//
+//@ func (xmpp.nsIQMatcher).Match(m, p, match) (ok)
+//@   requires typeof(p) == *stanza.IQ ==> p.(*stanza.IQ) != nil
+//@   ensures [C06.matcher.ns] ok == (typeof(p) == *stanza.IQ && p.(*stanza.IQ).Payload != nil && inList(m, nsOf(p.(*stanza.IQ).Payload)))
+//
+//@ pred wfRoute(r) := r != nil && forall(k, 0, len(r.matchers), r.matchers[k] != nil)
+//@ pred routeAccepts(r, p) := forall(k, 0, len(r.matchers), accepts(r.matchers[k], p))
+//
+//@ func (*xmpp.Route).Match(r, p, match) (ok)
+//@   requires wfRoute(r) && match != nil
+//@   ensures [C06.route.all] ok == routeAccepts(r, p)
+//@   ensures [C06.route.match] ok ==> match.Route == r && match.Handler == r.handler
+//@   ensures [C06.route.nomatch] !ok ==> match.Route == old(match.Route) && match.Handler == old(match.Handler)
+//@   assigns match.Route, match.Handler
+//@   loop 1:
+//@     invariant 0 <= $i && $i <= len(r.matchers) && forall(k, 0, $i, accepts(r.matchers[k], p))
+//@     invariant match.Route == old(match.Route) && match.Handler == old(match.Handler)
+//@     decreases len(r.matchers) - $i
+//
+//@ pred wfRouter(r) := r != nil && forall(j, 0, len(r.routes), wfRoute(r.routes[j]) && r.routes[j].handler != nil)
+//@ pred firstAt(r, p, i) := 0 <= i && i < len(r.routes) && routeAccepts(r.routes[i], p) && forall(j, 0, i, !routeAccepts(r.routes[j], p))
+//@ pred noRoute(r, p) := forall(j, 0, len(r.routes), !routeAccepts(r.routes[j], p))
+//
+//@ func (*xmpp.Router).Match(r, p, match) (ok)
+//@   requires wfRouter(r) && match != nil
+//@   ensures [C06.first.none]  !ok ==> noRoute(r, p)
+//@   ensures [C06.first.match] ok ==> exists(i, 0, len(r.routes), firstAt(r, p, i) && match.Route == r.routes[i] && match.Handler == r.routes[i].handler)
+//@   ensures [C06.first.nomatch] !ok ==> match.Route == old(match.Route) && match.Handler == old(match.Handler)
+//@   assigns match.Route, match.Handler
+//@   loop 1:
+//@     invariant wfRouter(r)
+//@     invariant 0 <= $i && $i <= len(r.routes) && forall(j, 0, $i, !routeAccepts(r.routes[j], p))
+//@     invariant match.Route == old(match.Route) && match.Handler == old(match.Handler)
+//@     decreases len(r.routes) - $i
+//
+// What a Send puts on the wire is summarised, at the moment of the call, by the packet's addressing attributes
+// (and, for an IQ, its error condition): the heap may change afterwards, the event keeps these values.
+//@ pred pkType(p)   := ite(typeof(p) == *stanza.IQ, p.(*stanza.IQ).Type, ite(typeof(p) == stanza.Message, p.(stanza.Message).Type, ite(typeof(p) == stanza.Presence, p.(stanza.Presence).Type, "")))
+//@ pred pkId(p)     := ite(typeof(p) == *stanza.IQ, p.(*stanza.IQ).Id, ite(typeof(p) == stanza.Message, p.(stanza.Message).Id, ite(typeof(p) == stanza.Presence, p.(stanza.Presence).Id, "")))
+//@ pred pkFrom(p)   := ite(typeof(p) == *stanza.IQ, p.(*stanza.IQ).From, ite(typeof(p) == stanza.Message, p.(stanza.Message).From, ite(typeof(p) == stanza.Presence, p.(stanza.Presence).From, "")))
+//@ pred pkTo(p)     := ite(typeof(p) == *stanza.IQ, p.(*stanza.IQ).To, ite(typeof(p) == stanza.Message, p.(stanza.Message).To, ite(typeof(p) == stanza.Presence, p.(stanza.Presence).To, "")))
+//@ pred pkReason(p) := ite(typeof(p) == *stanza.IQ && p.(*stanza.IQ).Error != nil, p.(*stanza.IQ).Error.Reason, "")
+//
+// Frame of the Sender interface: an implementation may only touch the un-acked queue of its own session (Client) and
+// external state (the wire); every implementation in this package is verified against this.
+//@ pred senderQueue(s) := ite(typeof(s) == *Client && s.(*Client) != nil && s.(*Client).Session != nil, s.(*Client).Session.SMState.UnAckQueue, nil)
+//@ func (xmpp.Sender).Send(s, packet) (err)
+//@   emit Send(s, packet)
+//@   emit SendAttrs(pkType(packet), pkId(packet), pkFrom(packet), pkTo(packet), pkReason(packet))
+//@   assigns senderQueue(s).Uslice
+//@ func (xmpp.Sender).SendRaw(s, stz) (err)
+//@   emit SendRaw(s, stz)
+//@   assigns senderQueue(s).Uslice
+//
+//@ func xmpp.iqNotImplemented(s, iq)
+//@   requires s != nil && iq != nil
+//@   ensures [C06.iqerr.reply] count(Send) == old(count(Send)) + 1 && last(Send, 0) == s && typeof(last(Send, 1)) == *stanza.IQ && last(Send, 1).(*stanza.IQ) == iq
+//@   ensures [C06.iqerr.attrs] count(SendAttrs) == old(count(SendAttrs)) + 1 && last(SendAttrs, 0) == "error" && last(SendAttrs, 1) == old(iq.Id) && last(SendAttrs, 2) == old(iq.To) && last(SendAttrs, 3) == old(iq.From) && last(SendAttrs, 4) == "feature-not-implemented"
+//@   ensures count(HandlePacket) == old(count(HandlePacket))
+//@   assigns *
+//@   emits Send, SendAttrs
+//
+//@ pred isIQRequest(p) := typeof(p) == *stanza.IQ && (p.(*stanza.IQ).Type == "get" || p.(*stanza.IQ).Type == "set")
+//@ pred pendingIQ(r, p) := typeof(p) == *stanza.IQ && r.IQResultRoutes != nil && mapHas(r.IQResultRoutes, p.(*stanza.IQ).Id)
+//@ pred plainPacket(r, p) := typeof(p) != stanza.SMAnswer && !pendingIQ(r, p)
+//
+//@ func xmpp.SendMissingStz(lastSent, s, uaq) (err)
+//@   requires s != nil
+//@   requires [C05.nilqueue] uaq != nil
+//@   assigns uaq.Uslice, senderQueue(s).Uslice
+//@   emits Send, SendAttrs, SendRaw
+//
+//@ func (*xmpp.Router).route(r, s, p)
+//@   requires wfRouter(r) && s != nil && p != nil
+//@   requires typeof(p) == *stanza.IQ ==> p.(*stanza.IQ) != nil
+//@   requires r.IQResultRoutes != nil ==> alls(k, mapHas(r.IQResultRoutes, k) ==> mapGet(r.IQResultRoutes, k) != nil)
+//@   requires (typeof(p) == stanza.SMAnswer && typeof(s) == *Client) ==> s.(*Client) != nil && s.(*Client).Session != nil
+//@   ensures [C06.once] old(plainPacket(r, p)) && !old(noRoute(r, p)) ==> count(HandlePacket) == old(count(HandlePacket)) + 1 && last(HandlePacket, 1) == s && last(HandlePacket, 2) == p && count(Send) == old(count(Send)) && count(SendRaw) == old(count(SendRaw))
+//@   ensures [C06.once.first] old(plainPacket(r, p)) && !old(noRoute(r, p)) ==> exists(i, 0, old(len(r.routes)), old(firstAt(r, p, i)) && last(HandlePacket, 0) == old(r.routes[i].handler))
+//@   ensures [C06.iqerr] old(plainPacket(r, p)) && old(noRoute(r, p)) && old(isIQRequest(p)) ==> count(HandlePacket) == old(count(HandlePacket)) && count(Send) == old(count(Send)) + 1 && last(Send, 0) == s && last(Send, 1) == p && count(SendAttrs) == old(count(SendAttrs)) + 1 && last(SendAttrs, 0) == "error" && last(SendAttrs, 1) == old(pkId(p)) && last(SendAttrs, 2) == old(pkTo(p)) && last(SendAttrs, 3) == old(pkFrom(p)) && last(SendAttrs, 4) == "feature-not-implemented"
+//@   ensures [C06.quiet] old(plainPacket(r, p)) && old(noRoute(r, p)) && !old(isIQRequest(p)) ==> count(HandlePacket) == old(count(HandlePacket)) && count(Send) == old(count(Send)) && count(SendRaw) == old(count(SendRaw))
+//@   assigns *
+//@   emits HandlePacket, Send, SendAttrs, SendRaw
